@@ -203,7 +203,7 @@ Proof. unfold similarity. cbv [dot add mul ROps]. repeat split; ring. Qed.
    VIOLATES "unchanged by reordering storage": with distinct element ids
    30, 10 (tet block, in that storage order) and 20 (hex block) the values of
    elements 10 and 30 are swapped.  The witness is replayed on the implementation
-   on every run (corpus/C11/mix_unsorted_block.json).  Assignment by element id
+   on every run (corpus/C11/mix_unsorted_block.json); fixed in /repo by aad563d.  Assignment by element id
    (what gen/Kernels.v records as *_mix_by_id = true) is the specification. *)
 Theorem C11_mixed_assignment_by_type_mask_refuted :
   exists blocks : list (string * list (Z * Z)),
